@@ -31,6 +31,7 @@ type staticCase struct {
 	Path     core.B `json:"path"`
 	INM      string `json:"if_none_match,omitempty"` // "" | match | other
 	Logging  bool   `json:"enable_logging,omitempty"`
+	Query    string `json:"raw_query,omitempty"` // the request also carries a query string (irrelevant to what is served or where a directory is redirected to)
 }
 
 func init() {
@@ -323,6 +324,7 @@ func genStaticCase(rng *rand.Rand) *staticCase {
 		ETag:     rng.Intn(2) == 0,
 		Headers:  rng.Intn(2) == 0,
 		Logging:  rng.Intn(4) == 0,
+		Query:    []string{"", "", "", "x=1", "a=b&c=d", "/", "%2F..%2F"}[rng.Intn(7)],
 		CustomFS: rng.Intn(4) == 0,
 		Method:   "GET",
 	}
@@ -424,7 +426,7 @@ func judgeStatic(w *core.W, fx *fixture, c *staticCase, classes func(string)) {
 		if c.INM == "match" && want.kind == "not-modified" {
 			// learn the tag from a plain request first
 			probe := &retSpy{h: http.Header{}}
-			f.ServeHTTP(probe, &http.Request{Method: "GET", URL: &url.URL{Path: string(c.Path)}, Header: http.Header{}})
+			f.ServeHTTP(probe, &http.Request{Method: "GET", URL: &url.URL{Path: string(c.Path), RawQuery: c.Query}, Header: http.Header{}})
 			tag = probe.h.Get("ETag")
 			nextRan = false
 		}
@@ -434,7 +436,7 @@ func judgeStatic(w *core.W, fx *fixture, c *staticCase, classes func(string)) {
 	var o staticObs
 	func() {
 		defer func() { o.pan = recover() }()
-		f.ServeHTTP(spy, &http.Request{Method: c.Method, URL: &url.URL{Path: string(c.Path)}, Header: hdr, RequestURI: string(c.Path)})
+		f.ServeHTTP(spy, &http.Request{Method: c.Method, URL: &url.URL{Path: string(c.Path), RawQuery: c.Query}, Header: hdr, RequestURI: string(c.Path)})
 	}()
 	o.status, o.body, o.hdr, o.nextRan = spy.status, string(spy.body), spy.h, nextRan
 	if msg := staticVerdict(fx, c, want, o); msg != "" {
